@@ -13,6 +13,8 @@ let dispatch (kind:string) (line:string) : unit =
   | "uci" -> if is 'U' || is 'Q' || is 'V' then Textchk.check_uci_line line
   | "game" -> if is 'G' then Gamechk.check_game line
   | "fns" -> Miscchk.check_fns_line line
+  | "extra" -> Extrachk.check_extra line
+  | "extra2" -> Extrachk.check_extra2 line
   | "magic" -> Miscchk.check_magic_line line
   | "pawnfns" -> if is 'W' then Miscchk.check_pawn_line line
   | "cache" -> if is 'C' then Miscchk.check_cache_line line
